@@ -66,6 +66,41 @@ def random_probe_defn(rng):
     return witness_defn()
 
 
+def gate_probe_defn(rng):
+    """A saturating logistic gate 1/(1+exp(g)) shared by several state updates: for a large gate input
+    exp() overflows to inf and the gate is exactly 0, a finite and well-defined model output."""
+    S = E.S
+    P = gen.pools()
+    names = gen._pick_names(rng, P["sym"], rng.randint(3, 5), {"dt"})
+    g, rest = names[0], names[1:]
+    ctl = gen._pick_names(rng, P["sym"], rng.randint(0, 2), set(names) | {"dt"})
+    lin = rng.choice([S(g), ["sub", S(g), S(rest[0])], ["mul", E.C(2), S(g)], ["add", S(g), E.F(0.5)]])
+    gate = ["gate", lin]
+    model = {g: S(g)}
+    for n in rest:
+        fac = rng.choice([S("dt"), ["mul", S("dt"), E.C(2)], ["mul", S("dt"), S(rng.choice(ctl))] if ctl else S("dt"),
+                          ["mul", S("dt"), ["sin", S(rng.choice(rest))]]])
+        model[n] = ["add", S(n), ["mul", fac, gate]]
+    if rng.random() < 0.5:
+        model[g] = ["add", S(g), ["mul", S("dt"), ["sub", gate, E.F(0.5)]]]
+    return {
+        "dt": "dt", "state": names, "control": ctl, "calibration": [],
+        "model": model, "model_as_text": [], "containers": {"state": "set", "control": "set", "calibration": "set"},
+        "calibration_map": {}, "process_noise": {c: 1.0 for c in ctl},
+        "sensors": {}, "sensor_noises": {}, "reading_keys": {}, "n_shared": 1, "family": "logistic_gate",
+        "gate_input": g,
+    }
+
+
+def gate_points(rng, defn):
+    pts = []
+    for gv in [-3.0, 0.5, 40.0, 709.0, 710.0, 800.0, 1.0e6, -710.0, -1.0e6, rng.uniform(700, 720)]:
+        pt = gen.point(rng, defn, scale=1.0, avoid_exp_overflow=False)
+        pt[defn["gate_input"]] = gv
+        pts.append(pt)
+    return pts
+
+
 def probe_point(rng, defn):
     return gen.point(rng, defn, scale=rng.choice([10.0, 30.0, 100.0]), avoid_exp_overflow=False)
 
